@@ -1,23 +1,32 @@
 (* C07 - Fileset view follows the setfile; open iterators pin their snapshot.
-   FULL STATEMENT: T07a_statement (no history ever makes a handle use a reader that a
-   reload has destroyed) and the view clause (checked by engine fs on every history:
-   views of implementation = views of this model).  PROVED so far (T07c): no reload
-   - neither through mtbl_fileset_reload nor mtbl_fileset_reload_now, through any
-   handle - changes the set of loaded files while an iterator on the shared fileset is
-   open (reload_now only records the request); with no iterator open a requested or due
-   reload is performed at that very operation; a handle with interval NEVER reloads only
-   on request.  T07a_statement is evaluated by vm_compute on the history that crashed
-   the pinned tree.  NOT yet proved: T07a_statement for all histories (invariant:
-   handles in sync with the shared generation stamp reference only loaded readers;
-   clock readings strictly increase). *)
+   PROVED:
+   T07a_no_use_after_unload - for every initial world, reload interval and filters, and EVERY
+     history of {rewrite the setfile, create / delete files, advance the clock, reload,
+     reload_now, open an iterator, close an iterator, dup with other options, destroy} through
+     any number of handles, no handle ever builds an iterator over a reader that a reload has
+     unloaded.  (Invariant: loaded and unloaded readers are disjoint; a handle whose stamp equals
+     the shared one has a merger over loaded readers only; stamps are past clock readings and
+     every reading is later than the one before.)  Setfile lines are distinct names.
+   T07c - no reload, through any handle, changes the set of loaded files while an iterator on
+     the shared fileset is open (reload_now only records the request); with no iterator open a
+     requested or due reload is performed at that very operation; interval NEVER reloads only on
+     request.
+   The view clause (an iterator sees the merge of the files named by the setfile as of the most
+     recent reload, restricted by the handle's filters) is checked by engine fs on every
+     generated history: views of the implementation = views of model/Fileset.v, with a
+     driver-controlled monotonic clock; the ASan build runs the same histories. *)
 From Coq Require Import NArith List Lia.
-From Mtbl Require Import gen.Consts model.Bytes model.Fileset.
+From Mtbl Require Import gen.Consts model.Bytes model.Fileset proofs.FilesetProofs.
 Local Open Scope N_scope.
 
-Definition T07a_statement : Prop :=
-  forall w interval nf rf ops,
-    (forall lines, In (OpSetFile lines) ops -> NoDup lines) ->
-    Forall (fun o => o <> OutUAF) (frun (fs_init w interval nf rf) ops).
+Theorem T07a_no_use_after_unload : forall w interval nf rf ops,
+  NoDup (w_set_lines w) ->
+  (forall lines, In (OpSetFile lines) ops -> NoDup lines) ->
+  Forall (fun o => o <> OutUAF) (frun (fs_init w interval nf rf) ops).
+Proof.
+  intros w interval nf rf ops Hw Hops. apply no_use_after_unload; [apply finv_init, Hw|exact Hops].
+Qed.
+Print Assumptions T07a_no_use_after_unload.
 
 (* T07c: what a reload may do, by the number of open iterators *)
 Theorem T07c_never_while_iterators_open : forall w s h, 0 < sh_n_iters s ->
